@@ -85,6 +85,16 @@ def command_variants(name, spec, upper=False):
                     continue
                 t2 += _positional_tokens(p, k + j)
             variants.append(t2)
+    # every value of a positional that is a tag (size :over / :under)
+    for j, p in enumerate(pos):
+        if p["type"] == "tag":
+            for val in p["values"][1:]:
+                t2 = []
+                for j2, p2 in enumerate(pos):
+                    if p2["optional"]:
+                        continue
+                    t2 += [val.encode()] if j2 == j else _positional_tokens(p2, j2)
+                variants.append(t2)
     return variants
 
 
